@@ -10,6 +10,8 @@ def classify(prop, cfg, impl_line, model_line):
     """is the first differing observation one the property talks about?"""
     rel = cfg.get("relevant", "RSMU")
     kind = (impl_line[:1] if impl_line and impl_line != "<end>" else model_line[:1])
+    if (impl_line or "").startswith("R ") or (model_line or "").startswith("R "):
+        kind = "R"   # a response one side has and the other has not (or has differently)
     if (impl_line or "").startswith("SERVED") or (model_line or "").startswith("SERVED"):
         kind = "V" if "V" in rel else "C"
     if (impl_line or "").startswith("TTL") or (model_line or "").startswith("TTL"):
